@@ -54,11 +54,25 @@ class C04(DocProp):
     deciding = {"spans": {"quick": 3000, "thorough": 30000}, "codeblock": {"quick": 300, "thorough": 3000}}
     profiles = ["core", "core", "typo", "tags"]
 
+    # a lone tilde in prose before a literal that contains a tilde (the literal must win over a strikethrough)
+    TILDE_TEXTS = ["It takes ~5 minutes, see `~/.config/tool` for details.\n", "About ~old text and `a~b` here.\n",
+                   "Roughly ~10 items in <https://example.org/notes.txt~> today.\n", "Wait ~2h then open <a href=/home/~> now.\n"]
+    # a template tag written over two source lines at the end of its paragraph
+    MULTILINE_TAG_TEXTS = ["Intro text {% callout type=\"note\"\ntitle=\"Loading...please wait\" %}\n",
+                           "{% field kind=\"string\"\nlabel=\"Name... it's here\" %}\n",
+                           "Some words <!-- a comment...\nover two lines it's -->\n"]
+
     def cases(self, tier, seed, shard, nshards):
         for r, c in self.doc_cases(tier, seed, shard, nshards):
             c["opts"] = [rand_opts(r), rand_opts(r, force={"smartquotes": True, "ellipses": True, "cleanups": True}),
                          rand_opts(r, widths=[1, 6, 12, 0]), rand_opts(r)]
             yield c
+            if r.random() < 0.15:
+                t_ = r.choice(self.TILDE_TEXTS + self.MULTILINE_TAG_TEXTS)
+                # ground truth that does not depend on any reader: the literals as written (white space runs collapsed)
+                lits = re.findall(r"`[^`]+`|<https?://[^>]+>|<a href=[^>]+>|\{%.*?%\}|<!--.*?-->", t_, re.S)
+                yield {"kind": "text", "text": t_, "literals": [re.sub(r"\s+", " ", x) for x in lits], "feats": ["literal-hazard"], "profile": "literal-hazard",
+                       "opts": [rand_opts(r, widths=[0, 30, 88]), rand_opts(r, widths=[88], force={"smartquotes": True, "ellipses": True})]}
 
     def check(self, case, col: Collector):
         if case["kind"] == "text":
@@ -77,6 +91,10 @@ class C04(DocProp):
                 col.count("raised_cases_left_to_C12")
                 continue
             col.mon("spans")
+            for lit in case.get("literals", []):
+                if lit not in re.sub(r"\s+", " ", out):
+                    col.violation("spans", "C04/literal-not-verbatim-in-output", sub, {"literal": lit, "output": out[:300]})
+                    break
             got = spans(astn.tree(out))
             if ref:
                 col.distinct(case.get("seed", text), opts_key(o))
